@@ -192,7 +192,7 @@ def replay(records, driver, stats=None):
 
 
 CLAUSES = ["placement", "loc", "mach_hold", "agv_hold", "claims", "capacity", "flags", "feasible", "no_overdue",
-           "past", "busy_op", "proc_inner", "output_done", "outages", "outage_nonneg", "agv_phase", "idle_unclaimed", "sto_ok", "fresh", "agv_load", "fresh2", "nodep", "durations", "travel_gap", "setup_gap", "depi"]
+           "past", "busy_op", "proc_inner", "output_done", "outages", "outage_nonneg", "agv_phase", "idle_unclaimed", "sto_ok", "fresh", "agv_load", "fresh2", "nodep", "durations", "travel_gap", "setup_gap", "depi", "pre_ok"]
 
 
 def monitor_states(records, driver, which=None, stats=None):
